@@ -98,7 +98,9 @@ def errpure_set_fixed(ctx, prog):
             e = Sym(g).operand(t["args"][1])
             r, names = fpath(e)
             # (try_from(size) as Ok).0
-            ok = r[0] == "call" and "try_from" in r[1] and is_param(r[2][0], "size") and names == ("<Ok>", "0")
+            # the conversion is the one to u64 (a detour through a narrower type refuses sizes that are legal)
+            ok = r[0] == "call" and r[1].endswith("for u64>::try_from") and is_param(r[2][0], "size") and names == ("<Ok>", "0") and \
+                strip(e)[0] != "cast"
     if not ok:
         # combinator form: `u64::try_from(size).map_err(..).and_then(|size| self.set_fixed_input_size(size))`
         gsy = Sym(g)
@@ -108,7 +110,7 @@ def errpure_set_fixed(ctx, prog):
                 while recv[0] == "call" and recv[1].split("::")[-1] in ("map_err",) and recv[2]:
                     recv = strip(recv[2][0])
                 cl = strip(gsy.operand(t["args"][1]))
-                if recv[0] == "call" and "try_from" in recv[1] and is_param(strip(recv[2][0]), "size") and cl[0] == "agg" and cl[1].startswith("Closure:"):
+                if recv[0] == "call" and recv[1].endswith("for u64>::try_from") and is_param(strip(recv[2][0]), "size") and cl[0] == "agg" and cl[1].startswith("Closure:"):
                     c = prog.get(cl[1][len("Closure:"):])
                     if c is not None:
                         ctx.visit(c)
